@@ -27,12 +27,17 @@ type htmlRenderer struct{}
 
 // Render renders HTML nodes to the given writer.
 func (r *htmlRenderer) Render(ctx context.Context, w io.Writer, nodes []*html.Node) error {
+	// The serialiser does not look at Write results: remember the first failure and report it
+	ew := &errWriter{w: w}
 	for _, node := range nodes {
-		if err := renderNode(w, node, 0); err != nil {
+		if err := renderNode(ew, node, 0); err != nil {
 			return err
 		}
+		if ew.err != nil {
+			return ew.err
+		}
 	}
-	return nil
+	return ew.err
 }
 
 // NewRenderer creates a new Renderer.
